@@ -90,6 +90,9 @@ def gen_inputs(ctx):
         h32 = bytes(rng.randrange(256) for _ in range(32))
         for tpl, h in (("p2pkh", h20), ("p2sh", h20), ("p2wpkh", h20), ("p2wsh", h32)):
             out.append(("ScriptTpl", {"tpl": tpl, "h": B(h)}, ("tpl", tpl)))
+    for tpl, n_ in (("p2pkh", 20), ("p2sh", 20), ("p2wpkh", 20), ("p2wsh", 32)):
+        out.append(("ScriptTpl", {"tpl": tpl, "h": B(bytes(rng.randrange(256) for _ in range(n_))), "then": B(bytes(rng.randrange(256) for _ in range(n_)))},
+                    ("tpl-two-live-scripts", tpl)))
     for tpl, h in (("p2pkh", bytes(20)), ("p2sh", b"\xff" * 20), ("p2wpkh", bytes(20)), ("p2wsh", bytes(32))):
         out.append(("ScriptTpl", {"tpl": tpl, "h": B(h)}, ("tpl-const", tpl)))
     # HASH160 / RIPEMD-160 on every length (every padding boundary)
